@@ -19,6 +19,7 @@ class Kit:
         self.ext_attrs = {}
         self.enums = {}
         self.heap_axioms = []
+        self.background_axioms = []     # facts about static objects of the initial heap: added when discharging, not carried in every path condition
         self.trusted = []       # (name, reason)
 
     def contract(self, qual, **kw):
@@ -55,6 +56,10 @@ class Kit:
             return f
         return deco
 
+    def background(self, f):
+        self.background_axioms.append(f)
+        return f
+
     def axiom(self, f):
         self.heap_axioms.append(f)
         return f
@@ -71,6 +76,11 @@ class Kit:
     def engine(self, repo):
         e = Engine(repo, self.contracts, self.fields, self.spec_funcs, self.ext_models, self.ext_methods)
         e.ext_attrs = dict(self.ext_attrs)
+        e.iter_kinds = dict(getattr(self, "iter_kinds", {}))
+        e.class_info = getattr(self, "class_info", None)
         e.enums = dict(self.enums)
         e.heap_axioms = list(self.heap_axioms)
+        from .state import State
+        st0 = State()
+        e.background = [fact for ax in self.background_axioms for fact in ax(e, st0)]
         return e
